@@ -107,6 +107,7 @@ def run(ctx):
     rng = ctx.rng()
     quick = ctx.quick
     net = fakesock.FakeNet().install()
+    net.call_budget = 10 ** 9   # this check has its own per-case call budgets
 
     def new_sock(peer):
         net.endpoints[("10.9.8.7", 44818)] = peer
@@ -120,6 +121,7 @@ def run(ctx):
         s = new_sock(peer)
         avail = fr if prefix is None else fr[:prefix]
         peer.sock.deliver(avail)
+        net.call_ops = 0
         net.schedule = LimitedSchedule(recv_chunks=chunks, limit=len(fr) + 64)
         ad = AfterData(peer.sock, after, 64)
         peer.sock.recv = ad.recv
@@ -207,6 +209,7 @@ def run(ctx):
     def send_case(msg, chunks, key, fault_after=None, fault_kind=None):
         peer = Peer()
         s = new_sock(peer)
+        net.call_ops = 0
         sched = LimitedSchedule(send_chunks=chunks, limit=len(msg) + 64)
         net.schedule = sched
         osock = peer.sock
